@@ -93,18 +93,55 @@ Small(t) == Simple(t, 2, "b", FALSE, FALSE, L3) \cup { Bind("b") }
 \* small set plus top-level or-patterns of binder-free atoms (bool, u8 only)
 SmallOr(t) == Small(t) \cup
     { [k |-> "or", ps |-> <<p1, p2>>] : p1 \in Atoms(t, "", FALSE, L3), p2 \in Atoms(t, "", FALSE, L3) }
-Full(t) == Pats(t, 2, "b", TRUE, TRUE, L5)
 
 SeqsUpTo(P, n) == UNION { [1..m -> P] : m \in 1..n }
 AsSeq(f) == [i \in 1..Len(f) |-> f[i]]
 
 Exh(ty, P, n) == { [ty |-> ty, M |-> AsSeq(f)] : f \in SeqsUpTo(P, n) }
-\* random matrices with 2..4 arms: half of the arms drawn from the or-free patterns
-Rnd(ty, n) ==
-    LET F == Full(Types[ty])
-        G == Pats(Types[ty], 2, "b", TRUE, FALSE, L5)
-    IN UNION { { [ty |-> ty, M |-> AsSeq(f)] : f \in RandomSubset(NRand, [1..m -> F]) }
-               \cup { [ty |-> ty, M |-> AsSeq(f)] : f \in RandomSubset(NRand, [1..m -> G]) } : m \in 2..n }
+(***************************************************************************)
+(* Random matrices over the full depth-2 pattern language (binders and     *)
+(* nested or-patterns anywhere, literals from L5, every way of writing a   *)
+(* struct field list).  The pattern set is far too large to build, so a    *)
+(* pattern is drawn constructor by constructor with TLC's RandomElement;   *)
+(* the draw is a function of the -seed given on the command line (fixed by *)
+(* the driver), so the pool is finite and deterministic.                   *)
+(***************************************************************************)
+RECURSIVE RP(_, _, _, _, _, _)
+\* top: the pattern is a whole arm (or an alternative of one): irrefutable patterns are drawn rarely
+\* there, because they make everything below them dead
+RP(t, d, nm, b, o, top) ==
+    LET r == RandomElement(1..100)
+        orW == IF o THEN 22 ELSE 0
+        wildW == orW + (IF top THEN 5 ELSE 16)
+        bindW == wildW + (IF ~b THEN 0 ELSE IF top THEN 3 ELSE 8)
+    IN
+    IF r <= orW THEN
+        LET n == IF RandomElement(1..4) = 1 THEN 3 ELSE 2
+        IN [k |-> "or", ps |-> [i \in 1..n |-> RP(t, d, "", FALSE, (d > 0) /\ RandomElement(1..4) = 1, top)]]
+    ELSE IF r <= wildW THEN Wild
+    ELSE IF r <= bindW THEN Bind(nm)
+    ELSE CASE t.k = "bool" -> [k |-> "bool", v |-> RandomElement(BOOLEAN)]
+           [] t.k = "u8"   -> Lit(RandomElement(L5))
+           [] t.k = "unit" -> Wild
+           [] d = 0 -> Wild
+           [] t.k = "tuple" ->
+                [k |-> "tuple", ps |-> [i \in DOMAIN t.ts |-> RP(t.ts[i], d - 1, nm \o ToString(i), b, o, FALSE)]]
+           [] t.k = "struct" ->
+                LET f == RandomElement(Forms(Len(t.ts))) IN
+                [k |-> "struct", name |-> t.name, rest |-> f[2],
+                 fs |-> [j \in DOMAIN f[1] |->
+                            [i |-> f[1][j], p |-> RP(t.ts[f[1][j]], d - 1, FieldName(f[1][j]), b, o, FALSE)]]]
+           [] t.k = "enum" ->
+                LET i == RandomElement(DOMAIN t.ts) IN
+                [k |-> "variant", name |-> t.name, v |-> i - 1,
+                 p |-> IF t.ts[i].k = "unit" THEN Wild ELSE RP(t.ts[i], d - 1, nm \o ToString(i), b, o, FALSE)]
+
+\* one random matrix with 2..n arms; one matrix in three is free of or-patterns
+RM(ty, n) ==
+    LET len == RandomElement(2..n)
+        o == RandomElement(1..3) # 1
+    IN [ty |-> ty, M |-> [i \in 1..len |-> RP(Types[ty], 2, "b", TRUE, o, TRUE)]]
+Rnd(ty, n) == { RM(ty, n) : i \in 1..NRand }
 
 \* (an operator, not a constant: TLC evaluates constant definitions eagerly at start-up)
 Pool(s) ==
@@ -157,11 +194,13 @@ Norm(p, t) ==
       [] OTHER -> p
 
 \* the arm SwaySem's EvalMatch takes: first i with Match(arms[i].p, v).m
-RECURSIVE SwayArm(_, _, _, _)
-SwayArm(M, t, v, i) ==
-    IF i > Len(M) THEN 0 ELSE IF S!Match(Norm(M[i], t), v).m THEN i ELSE SwayArm(M, t, v, i + 1)
+RECURSIVE SwayArm(_, _, _)
+SwayArm(NM, v, i) ==
+    IF i > Len(NM) THEN 0 ELSE IF S!Match(NM[i], v).m THEN i ELSE SwayArm(NM, v, i + 1)
 
-AgreesWithSwaySem(M, t) == \A v \in AbsVal(t, M) : Arm(M, v) = SwayArm(M, t, v, 1)
+AgreesWithSwaySem(M, t) ==
+    LET NM == [i \in DOMAIN M |-> Norm(M[i], t)] IN
+    \A v \in AbsVal(t, M) : Arm(M, v) = SwayArm(NM, v, 1)
 
 (***************************************************************************)
 (* Model-level facts, checked on every generated matrix                    *)
@@ -172,12 +211,22 @@ WellFormed == \A i \in DOMAIN m.M : WF(m.M[i], T)
 Facts ==
     /\ ExhaustiveIffWildUseless(m.M, T)
     /\ BelowCatchAllDead(m.M, T)
-    /\ ArmTotalIffExhaustive(m.M, T)
-    /\ ReachableIffRuns(m.M, T)
+    /\ TableIsDefinitional(m.M, T)
     /\ WitnessExists(m.M, T)
     /\ AgreesWithSwaySem(m.M, T)
-\* u8 leaves of the full value space: at most two u8 leaves keeps it below 2^17 values
-Lemma == FullLemma => RegionLemma(m.M, T)
+\* RegionLemma over the full value space (u8 = 0..255) for types with at most one u8 leaf on any
+\* path (<= 1024 values); the lemma is compositional, so wider products add nothing new.
+Max(X) == CHOOSE x \in X : \A y \in X : y <= x
+RECURSIVE SumSeq(_, _)
+SumSeq(q, i) == IF i > Len(q) THEN 0 ELSE q[i] + SumSeq(q, i + 1)
+RECURSIVE U8Leaves(_)
+U8Leaves(t) ==
+    CASE t.k = "u8" -> 1
+      [] t.k = "enum" -> LET n == Len(t.ts) IN
+            IF n = 0 THEN 0 ELSE Max({ U8Leaves(t.ts[i]) : i \in 1..n })
+      [] t.k = "tuple" \/ t.k = "struct" -> SumSeq([i \in DOMAIN t.ts |-> U8Leaves(t.ts[i])], 1)
+      [] OTHER -> 0
+Lemma == (FullLemma /\ U8Leaves(T) <= 1) => RegionLemma(m.M, T)
 
 (***************************************************************************)
 (* Replay records: the matrix, its abstract value space and the verdicts   *)
@@ -186,12 +235,13 @@ SE == INSTANCE SequencesExt
 
 Record ==
     LET M == m.M
-        vs == SE!SetToSeq(AbsVal(T, M))
+        tb == Table(M, T)
+        vs == SE!SetToSeq(DOMAIN tb)
     IN [ ty |-> m.ty, t |-> T, M |-> M,
-         exh |-> Exhaustive(M, T),
-         unreach |-> Unreachable(M, T),
+         exh |-> TExh(tb),
+         unreach |-> TUnreach(M, tb),
          vals |-> vs,
-         arm |-> [j \in DOMAIN vs |-> Arm(M, vs[j])] ]
+         arm |-> [j \in DOMAIN vs |-> TArm(tb, vs[j])] ]
 
 PrintReplay == PrintT(<<"REPLAY", ToJson(Record)>>)
 =============================================================================
